@@ -122,17 +122,17 @@ Print Assumptions C09_same_chain_same_producers_partial.
 From Verif Require Import Dpos.Accept Dpos.AcceptProofs.
 Close Scope string_scope.
 
-Theorem C09_accepted_blocks_legitimate : forall iv cluster_of cap genesis evs b,
-  In b (n_main (run iv cluster_of cap genesis evs (init genesis))) -> b <> genesis ->
+Theorem C09_accepted_blocks_legitimate : forall iv cluster_of cap genesis f42 evs b,
+  In b (n_main (run iv cluster_of cap genesis f42 evs (init genesis))) -> b <> genesis ->
   vetted iv evs b /\
   exists ub, (ub = genesis \/ vetted iv evs ub) /\
              is_block_valid Z.eqb iv (cluster_of (b_id ub)) (b_signer b) (b_ts b) = true.
 Proof. exact accepted_blocks_legitimate. Qed.
 Print Assumptions C09_accepted_blocks_legitimate.
 
-Theorem C09_accepted_signer_owns_slot : forall iv cluster_of cap genesis evs b,
+Theorem C09_accepted_signer_owns_slot : forall iv cluster_of cap genesis f42 evs b,
   0 < iv -> (forall u, cluster_of u <> [] /\ Z.of_nat (List.length (cluster_of u)) <= index_nil) ->
-  In b (n_main (run iv cluster_of cap genesis evs (init genesis))) -> b <> genesis -> 0 <= b_ts b ->
+  In b (n_main (run iv cluster_of cap genesis f42 evs (init genesis))) -> b <> genesis -> 0 <= b_ts b ->
   exists ub, (ub = genesis \/ vetted iv evs ub) /\
     let ids := cluster_of (b_id ub) in
     nth_error ids (Z.to_nat (Z.rem (next_index iv (ns_to_ms (b_ts b))) (Z.of_nat (List.length ids)))) = Some (b_signer b)
@@ -140,25 +140,28 @@ Theorem C09_accepted_signer_owns_slot : forall iv cluster_of cap genesis evs b,
 Proof. exact accepted_signer_owns_slot. Qed.
 Print Assumptions C09_accepted_signer_owns_slot.
 
-Theorem C09_stored_blocks_vetted : forall iv cluster_of cap genesis evs b,
-  In b (n_store (run iv cluster_of cap genesis evs (init genesis))) -> b <> genesis -> vetted iv evs b.
+Theorem C09_stored_blocks_vetted : forall iv cluster_of cap genesis f42 evs b,
+  In b (n_store (run iv cluster_of cap genesis f42 evs (init genesis))) -> b <> genesis -> vetted iv evs b.
 Proof. exact stored_blocks_vetted. Qed.
 Print Assumptions C09_stored_blocks_vetted.
 
-Theorem C09_parked_blocks_vetted : forall iv cluster_of cap genesis evs b,
-  In b (n_orph (run iv cluster_of cap genesis evs (init genesis))) -> vetted iv evs b.
+Theorem C09_parked_blocks_vetted : forall iv cluster_of cap genesis f42 evs b,
+  In b (n_orph (run iv cluster_of cap genesis f42 evs (init genesis))) -> vetted iv evs b.
 Proof. exact parked_blocks_vetted. Qed.
 Print Assumptions C09_parked_blocks_vetted.
 
 (** "... belongs to a CURRENT block producer", at the chain-service level: as long as no
     reorganisation failed in rollforward, a main-chain block is validated against the set in
     force after its own parent.  Partial: after a failed rollforward the consensus is left on
-    the abandoned branch (refuted below; known finding C09:producer-set-stale-after-failed-reorg,
-    reproduced on the real ChainService by corpus/C09 on every run). *)
+    the abandoned branch (refuted below for f42 = false, the code without
+    fixes/NOT_APPLIED_F42_reorg_restore_consensus.diff; known finding
+    C09:producer-set-stale-after-failed-reorg, reproduced on the real ChainService by corpus/C09 on
+    every run).  With the repair (f42 = true, detected from chain/reorg.go) the statement holds
+    for every history. *)
 Theorem C09_connected_validated_against_parent_partial :
-  forall iv cluster_of cap genesis evs pre b p post,
-  no_failed_rollforward iv cluster_of cap genesis evs (init genesis) ->
-  n_main (run iv cluster_of cap genesis evs (init genesis)) = pre ++ b :: p :: post ->
+  forall iv cluster_of cap genesis f42 evs pre b p post,
+  f42 = true \/ no_failed_rollforward iv cluster_of cap genesis f42 evs (init genesis) ->
+  n_main (run iv cluster_of cap genesis f42 evs (init genesis)) = pre ++ b :: p :: post ->
   b_parent b = b_id p /\
   is_block_valid Z.eqb iv (cluster_of (b_id p)) (b_signer b) (b_ts b) = true.
 Proof. exact connected_validated_against_parent_partial. Qed.
@@ -166,7 +169,7 @@ Print Assumptions C09_connected_validated_against_parent_partial.
 
 Theorem C09_connected_validated_against_parent_refuted :
   exists iv cluster_of cap genesis evs pre b p post,
-    n_main (run iv cluster_of cap genesis evs (init genesis)) = pre ++ b :: p :: post /\
+    n_main (run iv cluster_of cap genesis false evs (init genesis)) = pre ++ b :: p :: post /\
     b_parent b = b_id p /\
     is_block_valid Z.eqb iv (cluster_of (b_id p)) (b_signer b) (b_ts b) = false /\
     ~ In (b_signer b) (cluster_of (b_id p)).
